@@ -71,7 +71,7 @@ def check(ctx: Ctx, ev: Evidence) -> list[Finding]:
             w = a.h.watch(a.nodes[i])
             if which == "dest":
                 extra = ename(a.h.wget(w, "_params.completion_disposition"))
-                if step_of(a, w) == "WAITING_FOR_METADATA" and a.h.wget(w, "_params.acked_params.deferred_lost_segment_detection_active") is True:
+                if a.h.wget(w, "_params.acked_params.deferred_lost_segment_detection_active") is True:
                     extra += ",deferred-active"
             else:
                 extra = "eof-condition " + ename(a.h.wget(w, "_params.cond_code_eof"))
@@ -79,8 +79,8 @@ def check(ctx: Ctx, ev: Evidence) -> list[Finding]:
 
         def exempt_of(key: tuple) -> str | None:
             step, mode, extra = key
-            if which == "dest" and step == "WAITING_FOR_METADATA" and "deferred-active" in extra:
-                return None
+            if which == "dest" and "deferred-active" in extra:
+                return None  # the EOF was received and the NAK procedure runs: not the documented "awaiting file data / EOF" wait
             return EXEMPT.get((which, step, mode))
 
         silent = lambda e: e.label in (("state_machine", None), ("drain",))  # noqa: E731
